@@ -185,6 +185,54 @@ def named_worker(part, _):
             part.state((name, tuple(args), vname))
 
 
+def history_worker(part, depth):
+    """
+    a UnitCell is a mutable object that can be re-specified through set_lengths_and_angles / set_vectors: every sequence of
+    up to `depth` re-specifications over a small alphabet of cells (with all queries evaluated after every step) must leave
+    the object describing exactly the cell specified last - and two objects alive at once must not influence each other.
+    """
+    from chmpy.crystal.unit_cell import UnitCell
+    from mc.ref.mol import rot
+
+    cells = [(7.0, 8.0, 9.0, 81.0, 97.0, 104.0), (5.1, 11.3, 13.7, 60.0, 65.0, 115.0), (7.0, 7.0, 7.0, 90.0, 90.0, 90.0)]
+    Q = rot((1, 2, 3), 0.7)
+    alphabet = []
+    for i, p in enumerate(cells):
+        alphabet.append(("angles", i, False))
+        alphabet.append(("vectors", i, False))
+    alphabet.append(("vectors", 0, True))   # rotated frame
+    alphabet.append(("vectors", 1, True))
+
+    def apply(uc, letter):
+        how, i, rotated = letter
+        p = cells[i]
+        if how == "angles":
+            uc.set_lengths_and_angles(list(p[:3]), list(np.radians(p[3:])))
+        else:
+            M = lattice.cell_matrix(*p)
+            uc.set_vectors(M @ Q.T if rotated else M.copy())
+        return p, (how == "vectors" and rotated)
+
+    seen = set()
+    for L in range(1, depth + 1):
+        for hist in itertools.product(range(len(alphabet)), repeat=L):
+            part.ev()
+            uc = UnitCell(np.eye(3) * 3.0)
+            other = UnitCell.from_lengths_and_angles([4.0, 5.0, 6.0], [80.0, 85.0, 95.0], unit="degrees")
+            for step, k in enumerate(hist):
+                part.tr()
+                params, free = apply(uc, alphabet[k])
+                case = {"kind": "history", "hist": list(hist[: step + 1])}
+                check_cell(part, uc, tuple(float(x) for x in params), "history:%s-after-%s" % (alphabet[k][0], alphabet[hist[step - 1]][0] if step else "construction"),
+                           case, frame_free=True)
+                # the bystander object is untouched
+                if abs(other.volume() - abs(np.linalg.det(np.asarray(other.direct)))) > 1e-9 * other.volume() or abs(other.a - 4.0) > 1e-12:
+                    part.fail("history:bystander", "re-specifying one UnitCell changed another one", case)
+            seen.add(hist[-2:])
+    part.nstates(len(seen))
+    part.outcome(("history", depth))
+
+
 def run(ctx):
     from mc.core import chunked
 
@@ -207,11 +255,15 @@ def run(ctx):
     ctx.assumptions = ["relative tolerance 1e-9 (angles scaled by 1/sin near 0/180 degrees); cells flatter than sqrt(det G)/abc = 0.02 excluded as degenerate"]
     ctx.pmap(grid_worker, chunked(cells, max(1, len(cells) // 128)), unit_rad=True)
     ctx.pmap(named_worker, [0])
+    ctx.pmap(history_worker, [3 if ctx.thorough else 2])
+    ctx.bounds["respecification_histories"] = "all sequences of <= %d set_lengths_and_angles / set_vectors calls over 8 letters on one object" % (3 if ctx.thorough else 2)
     ctx.sample({"first_cells": [c[1] for c in cells[:3]], "n_cells": len(cells)})
 
 
 def replay(ctx, case):
-    if case.get("kind") == "grid":
+    if case.get("kind") == "history":
+        history_worker(ctx, 3)
+    elif case.get("kind") == "grid":
         grid_worker(ctx, [(0, tuple(case["params"]))], True)
     else:
         named_worker(ctx, 0)
